@@ -120,6 +120,9 @@ def shard_main(args):
     try:
         mod = load_prop(prop_id)
         parts = mod.parts(tier)
+        only = [x for x in os.environ.get("VERIF_PARTS", "").split(",") if x]      # debugging aid: run named parts only
+        if only:
+            parts = [p for p in parts if p["name"] in only]
         for part in parts:
             name = part["name"]
             stats = Stats()
